@@ -299,6 +299,7 @@ class FnContract:
     prologue: str = ""
     closures: dict = field(default_factory=dict)   # ordinal -> {"header": str, "clauses": [Clause]}
     loops: dict = field(default_factory=dict)      # ordinal -> {"clauses": [Clause], "iter": str}
+    ghosts: list = field(default_factory=list)     # mid-body ghost insertions keyed by ordinal anchors
     implicit: list = field(default_factory=list)   # property ids charged for implicit obligations
     external_body: bool = False
 
@@ -316,11 +317,13 @@ def parse_contracts(path):
     with open(path) as f:
         lines = f.read().split("\n")
     for ln, raw in enumerate(lines, 1):
-        if raw.strip().startswith("//") and mode != "prologue":
+        if raw.strip().startswith("//") and mode not in ("prologue", "ghost"):
             continue
         if not raw.strip():
             if mode == "prologue" and cur is not None:
                 cur.prologue += "\n"
+            if mode == "ghost" and cur is not None:
+                cur.ghosts[-1]["text"] += "\n"
             continue
         indent = len(raw) - len(raw.lstrip(" "))
         s = raw.strip()
@@ -343,6 +346,9 @@ def parse_contracts(path):
         if mode == "prologue" and indent >= 4:
             cur.prologue += raw[4:] + "\n"
             continue
+        if mode == "ghost" and indent >= 4:
+            cur.ghosts[-1]["text"] += raw[4:] + "\n"
+            continue
         if indent == 2:
             mode = None
             if s.startswith("ret "):
@@ -360,6 +366,12 @@ def parse_contracts(path):
                 continue
             if s == "prologue:":
                 mode = "prologue"
+                continue
+            m = re.match(r"ghost\s+(after\s+let|wrap\s+selfcall|loop_pre|loop_tail)\s*#(\d+)(?:\s+as\s+(\w+))?\s*:$", s)
+            if m:
+                g = {"kind": " ".join(m.group(1).split()), "k": int(m.group(2)), "name": m.group(3) or "", "text": ""}
+                cur.ghosts.append(g)
+                mode = "ghost"
                 continue
             m = re.match(r"closure\s+(\d+)\s*:\s*(.*)$", s)
             if m:
@@ -383,9 +395,6 @@ def parse_contracts(path):
                 mode = "clause"
                 continue
             raise ExtractError(f"contracts:{ln}: cannot parse {s!r}")
-        if indent >= 4 and mode == "clause":
-            last.text += "\n            " + s
-            continue
         if indent == 4:
             m = _CL.match(s)
             if m:
@@ -393,6 +402,9 @@ def parse_contracts(path):
                 target.append(last)
                 mode = "clause"
                 continue
+        if indent >= 4 and mode == "clause":
+            last.text += "\n            " + s
+            continue
         raise ExtractError(f"contracts:{ln}: cannot parse {s!r}")
     return out
 
@@ -522,6 +534,52 @@ def find_loops(body):
                     break
                 j += 1
             out.append((i, j))
+    return out
+
+
+def find_lets(body):
+    """(let_idx, semicolon_idx) for each `let` statement (not `if let` / `while let`) in source order"""
+    out = []
+    prev = None
+    for i, t in enumerate(body):
+        if t.kind in L.TRIVIA:
+            continue
+        if t.kind == "ident" and t.text == "let" and not (prev is not None and prev.kind == "ident" and prev.text in ("if", "while")) \
+                and not (prev is not None and prev.kind == "punct" and prev.text in ("&&", "||")):
+            d = 0
+            j = i
+            while True:
+                tt = body[j]
+                if tt.kind == "punct" and tt.text in L.OPEN:
+                    d += 1
+                elif tt.kind == "punct" and tt.text in L.CLOSE:
+                    d -= 1
+                elif tt.kind == "punct" and tt.text == ";" and d == 0:
+                    break
+                j += 1
+            out.append((i, j))
+        prev = t
+    return out
+
+
+def find_selfcalls(body):
+    """(start_idx, close_paren_idx) of every `self(.ident)+(`...`)` call in source order"""
+    out = []
+    sg = [i for i, t in enumerate(body) if t.kind not in L.TRIVIA]
+    for p, i in enumerate(sg):
+        t = body[i]
+        if t.kind == "ident" and t.text == "self":
+            if p > 0 and body[sg[p - 1]].kind == "punct" and body[sg[p - 1]].text in (".", "::"):
+                continue
+            q = p + 1
+            ok = False
+            while q + 1 < len(sg) and body[sg[q]].kind == "punct" and body[sg[q]].text == "." and body[sg[q + 1]].kind == "ident":
+                q += 2
+                ok = True
+                if q < len(sg) and body[sg[q]].kind == "punct" and body[sg[q]].text == "(":
+                    break
+            if ok and q < len(sg) and body[sg[q]].kind == "punct" and body[sg[q]].text == "(":
+                out.append((i, L.match_close(body, sg[q])))
     return out
 
 
@@ -672,7 +730,29 @@ def _annotate_body(em, fid, body, c, indent):
             while not (body[j].kind == "ident" and body[j].text == "in"):
                 j += 1
             ins_before.setdefault(j + 1, []).append(("raw", f" {A_OPEN}{d['iter']}:{A_CLOSE}"))
-    pending_block_open = {}
+    ins_after = {}
+    if c is not None and c.ghosts:
+        lets = find_lets(body)
+        calls = find_selfcalls(body)
+        for gi, g in enumerate(c.ghosts):
+            k = g["k"]
+            if g["kind"] == "after let":
+                if k >= len(lets):
+                    raise ExtractError(f"{fid}: ghost anchor let#{k} but the body has {len(lets)} let statements (lost anchor)")
+                ins_after.setdefault(lets[k][1], []).append(("ghost", (gi, g)))
+            elif g["kind"] == "wrap selfcall":
+                if k >= len(calls):
+                    raise ExtractError(f"{fid}: ghost anchor selfcall#{k} but the body has {len(calls)} self calls (lost anchor)")
+                ins_before.setdefault(calls[k][0], []).insert(0, ("raw", f"{A_OPEN}{{ let {g['name']} = {A_CLOSE}"))
+                ins_after.setdefault(calls[k][1], []).append(("wrapclose", (gi, g)))
+            elif g["kind"] == "loop_pre":
+                if k >= len(loops):
+                    raise ExtractError(f"{fid}: ghost anchor loop#{k} but the body has {len(loops)} loops (lost anchor)")
+                ins_before.setdefault(loops[k][0], []).insert(0, ("ghostraw", (gi, g)))
+            elif g["kind"] == "loop_tail":
+                if k >= len(loops):
+                    raise ExtractError(f"{fid}: ghost anchor loop#{k} but the body has {len(loops)} loops (lost anchor)")
+                ins_before.setdefault(L.match_close(body, loops[k][1]), []).append(("ghostraw", (gi, g)))
     for i, t in enumerate(body + [Tok("ws", "", -1)]):
         for kind, payload in ins_before.get(i, []):
             if kind == "raw":
@@ -692,8 +772,23 @@ def _annotate_body(em, fid, body, c, indent):
                 em.w(f"{A_OPEN}\n")
                 _emit_clauses_inner(em, fid, f"loop{k}", d["clauses"], indent + "            ")
                 em.w(f"{indent}        {A_CLOSE}")
+            elif kind == "ghostraw":
+                gi, g = payload
+                em.w(f"{A_OPEN}\n")
+                em.clause(f"{fid}::ghost{gi}", _indent_block(g["text"].rstrip("\n"), indent + "        "))
+                em.w(f"{indent}        {A_CLOSE}")
         if i < len(body) and i not in skip:
             em.w(t.text)
+        for kind, payload in ins_after.get(i, []):
+            gi, g = payload
+            if kind == "ghost":
+                em.w(f"\n{indent}        {A_OPEN}\n")
+                em.clause(f"{fid}::ghost{gi}", _indent_block(g["text"].rstrip("\n"), indent + "        "))
+                em.w(f"{indent}        {A_CLOSE}")
+            elif kind == "wrapclose":
+                em.w(f"{A_OPEN};\n")
+                em.clause(f"{fid}::ghost{gi}", _indent_block(g["text"].rstrip("\n"), indent + "        "))
+                em.w(f"{indent}        {g['name']} }}{A_CLOSE}")
     return ""
 
 
